@@ -399,7 +399,15 @@ class TileMatrixSet(object):
         return iter(self.tile_matrices)
 
     def _tile_matrices(self):
-        for level, res in self.grid.resolutions.iteritems():
+        for n, (level, res) in enumerate(self.grid.resolutions.iteritems()):
+            if getattr(self.grid, '_skip_odd_level', False):
+                # tile requests address only every second level of sqrt2 grids
+                # (see TileServiceGrid.internal_tile_coord), advertise only these
+                if n % 2:
+                    continue
+                identifier = '%02d' % (n // 2)
+            else:
+                identifier = level
             origin = self.grid.origin_tile(level, 'ul')
             bbox = self.grid.tile_bbox(origin)
             topleft = bbox[0], bbox[3]
@@ -408,7 +416,7 @@ class TileMatrixSet(object):
             grid_size = self.grid.grid_sizes[level]
             scale_denom = res / (0.28 / 1000) * meter_per_unit(self.grid.srs)
             yield bunch(
-                identifier=level,
+                identifier=identifier,
                 topleft=topleft,
                 grid_size=grid_size,
                 scale_denom=scale_denom,
